@@ -543,17 +543,26 @@ def b2(repo: Repo) -> RuleResult:
             for st in n.body:
                 if isinstance(st, ast.FunctionDef) and st.name == "format_default_description":
                     found = True
-                    rets = [r for r in ast.walk(st) if isinstance(r, ast.Return) and r.value is not None]
-                    res.inst(part="diagnostic-template", returns=len(rets))
-                    for r in rets:
-                        txt = _fstring_shape(r.value)
-                        facts = facts_at(r, st)
-                        under_filepath = any(truth and src_of(t) == "self.filepath" for t, truth in facts)
+                    from .normal import show
+                    from .pyflow import PyFlow, tpl_shape
+
+                    try:
+                        paths = [p_ for p_ in PyFlow(funcs={}, havoc_on=()).run(st) if p_.done == "return" and p_.ret is not None]
+                    except Inconclusive as e:
+                        res.unsure(f"B2: _TokenBound.format_default_description: {e}")
+                        paths = []
+                    res.inst(part="diagnostic-template", returns=len(paths))
+                    any_fp = False
+                    for p_ in paths:
+                        txt = tpl_shape(p_.ret) or "{" + show(p_.ret) + "}"
+                        under_filepath = any(k[0] == "truthy" and show(k[1]) == "self.filepath" and t for k, t in p_.guards) or any(k[0] == "isnone" and show(k[1]) == "self.filepath" and not t for k, t in p_.guards)
+                        any_fp = any_fp or under_filepath
+                        line_ = getattr(p_.ret_node, "lineno", st.lineno)
                         if "L{self.lineno}" not in txt:
-                            res.bad(Finding("B2", "compiler/bitproto/errors.py", r.lineno, "_TokenBound.format_default_description", src_of(r.value), "diagnostic text does not contain L{lineno}", tag="template-lineno"))
+                            res.bad(Finding("B2", "compiler/bitproto/errors.py", line_, "_TokenBound.format_default_description", txt, "diagnostic text does not contain L{lineno}", tag="template-lineno"))
                         if under_filepath and "{self.filepath}" not in txt:
-                            res.bad(Finding("B2", "compiler/bitproto/errors.py", r.lineno, "_TokenBound.format_default_description", src_of(r.value), "diagnostic text omits the file path although it is set", tag="template-filepath"))
-                    if not any(any(truth and src_of(t) == "self.filepath" for t, truth in facts_at(r, st)) for r in rets):
+                            res.bad(Finding("B2", "compiler/bitproto/errors.py", line_, "_TokenBound.format_default_description", txt, "diagnostic text omits the file path although it is set", tag="template-filepath"))
+                    if paths and not any_fp:
                         res.bad(Finding("B2", "compiler/bitproto/errors.py", st.lineno, "_TokenBound.format_default_description", "", "no return path formats the file path", tag="template-no-filepath-branch"))
     if not found:
         res.unsure("B2: _TokenBound.format_default_description vanished")
@@ -1059,6 +1068,8 @@ def b5(repo: Repo) -> RuleResult:
     g = get_grammar(repo)
     assert g.parser_cls is not None
     methods = {st.name: st for st in g.parser_cls.body if isinstance(st, ast.FunctionDef)}
+    for an, act in g.actions.items():
+        methods[an] = act.node  # with procedure-like helpers spliced in
 
     # (a) push_member of scope definitions only in the whole-production action
     for name, fn in methods.items():
@@ -1158,18 +1169,45 @@ def b5(repo: Repo) -> RuleResult:
         res.unsure("B5: p_import vanished")
     else:
         alts = g.alts_of_action("p_import")
-        pushes = [n for n in ast.walk(fn) if isinstance(n, ast.Call) and isinstance(n.func, ast.Attribute) and n.func.attr == "push_member"]
-        res.inst(part="import-name", pushes=len(pushes))
-        if len(pushes) != 1 or len(pushes[0].args) < 2:
-            res.bad(Finding("B5", PARSER, fn.lineno, "Parser.p_import", "", "the imported proto must be pushed under an explicit name (its own name, or the `as` name)", tag="import-push"))
-        else:
-            namevar = pushes[0].args[1]
-            for lhs, alt in alts:
-                L = len(alt) + 1
-                d = _import_name_under(namevar, L, fn)
-                want = "p[2]" if (len(alt) >= 3 and alt[1] == "IDENTIFIER") else "child.name"
-                if d != want:
-                    res.bad(Finding("B5", PARSER, pushes[0].lineno, "Parser.p_import", src_of(pushes[0]), f"for `{lhs} : {' '.join(alt)}` the proto is pushed under `{d}`, expected `{want}`", witness='import lib "lib.bitproto"  then  lib.Type', tag=f"import-name:{L}"))
+        from .fold import by_name, feasible
+        from .normal import show
+        from .pyflow import PyFlow, single_atom
+
+        try:
+            flow = PyFlow(funcs={}, havoc_on=(), pure=("len", "current_proto", "current_scope", "current_filepath", "_get_child_filepath", "_check_parsing_file", "protos", "samefile"))
+            paths = [p_ for p_ in flow.run(fn) if p_.done == "return"]
+        except Inconclusive as e:
+            paths = []
+            res.unsure(f"B5: p_import: {e}")
+        res.inst(part="import-name", paths=len(paths))
+        for lhs, alt in alts:
+            L = len(alt) + 1
+            ok_paths, unfolded = feasible(paths, by_name({}, {"len": L}), ignore=lambda k: not any("len(p)" in show(x) for x in k[1:] if hasattr(x, "terms")))
+            got = set()
+            for p_ in ok_paths:
+                pushes = [e for e in p_.effects if e.kind == "call" and e.name == "push_member"]
+                if len(pushes) != 1 or len(pushes[0].args) < 2:
+                    got.add("<no explicit name>")
+                    continue
+                member, nm = pushes[0].args[0], pushes[0].args[1]
+                if show(nm) == "p[2]":
+                    got.add("p[2]")
+                elif single_atom(nm) is not None and single_atom(nm)[0] == "attr" and single_atom(nm)[2] == "name" and single_atom(nm)[1] == member:
+                    got.add("child.name")
+                elif show(nm) == show(member) + ".name":
+                    got.add("child.name")
+                else:
+                    got.add(show(nm))
+            want = "p[2]" if (len(alt) >= 3 and alt[1] == "IDENTIFIER") else "child.name"
+            if got == {want}:
+                continue
+            if not got:
+                res.unsure(f"B5: p_import: no path for `{lhs} : {' '.join(alt)}`")
+            elif "<no explicit name>" in got:
+                res.bad(Finding("B5", PARSER, fn.lineno, "Parser.p_import", "", "the imported proto must be pushed under an explicit name (its own name, or the `as` name)", tag="import-push"))
+            else:
+                d = sorted(got)[0]
+                res.bad(Finding("B5", PARSER, fn.lineno, "Parser.p_import", str(sorted(got)), f"for `{lhs} : {' '.join(alt)}` the proto is pushed under `{d}`, expected `{want}`", witness='import lib "lib.bitproto"  then  lib.Type', tag=f"import-name:{L}"))
     return res
 
 
